@@ -5,7 +5,7 @@
    through the model of the field readers.  The conditions are executable (Schema/WfDec.v) and the check
    evaluates them on every generated description. *)
 From Coq Require Import ZArith NArith List Bool.
-From SV Require Import Base.Py Rx.Syntax Gen.Generated Schema.Model Schema.Proofs Schema.Match Schema.Chain
+From SV Require Import Gen.Sharing Base.Py Rx.Syntax Gen.Generated Schema.Model Schema.Proofs Schema.Match Schema.Chain
   Schema.ObjectClass Schema.AttributeType Schema.DitContentRule Schema.WfDec.
 Import ListNotations.
 
@@ -53,8 +53,16 @@ Example C16_example_dcr :
                 [([102; 111; 111], [[98]])])%N.
 Proof. exact wf_dcr_example. Qed.
 
+(* The theorems above are about functions and values; that schema.py keeps no state
+   between calls and shares none between objects is read off the source by tools/audit.py on every run
+   (Gen/Sharing.v): no memoisation, no module- or class-level container that is written, no mutable default, no
+   attribute written behind a dataclass, no parameter stored without a copy. *)
+Theorem C16_audit_no_state_between_calls : (hidden_state_schema = [])%list.
+Proof. exact eq_refl. Qed.
+
 Print Assumptions C16_object_class_round_trip.
 Print Assumptions C16_attribute_type_round_trip.
 Print Assumptions C16_dit_content_rule_round_trip.
 Print Assumptions C16_round_trip_executable_conditions.
 Print Assumptions C16_qdstring_round_trip.
+Print Assumptions C16_audit_no_state_between_calls.
